@@ -3,7 +3,7 @@
 import json
 import types
 
-from gen.canon import code_fields, cps, f2hex, hx
+from gen.canon import code_fields, cps, f2hex, hx, istr
 
 _XT = {}
 _XPATH = []
@@ -41,9 +41,9 @@ def xcanon(x, ver, native_ver=None, binary=False):
         return {"t": "stopiter"}
     t = type(x)
     if t is T["long"]:
-        return {"t": "long2" if py2file else "int", "v": str(int(x))}
+        return {"t": "long2" if py2file else "int", "v": istr(x)}
     if t is int:
-        return {"t": "int", "v": str(x)}
+        return {"t": "int", "v": istr(x)}
     if t is float:
         return {"t": "float", "v": f2hex(x)}
     if t is complex:
